@@ -45,7 +45,12 @@ fn parse_res(r: &str) -> (usize, Vec<usize>, i64, u64) {
 }
 fn fail_now(panic: bool) -> std::io::Error {
     if panic { panic!("scripted producer panic"); }
-    std::io::Error::other("scripted producer failure")
+    // the error KIND rotates: a producer failure is a failure whatever its kind (BrokenPipe, reset, timeout ...).  Interrupted
+    // and WouldBlock are left out: std's read adapters legitimately retry those.
+    static K: AtomicUsize = AtomicUsize::new(0);
+    use std::io::ErrorKind::*;
+    const KINDS: [std::io::ErrorKind; 9] = [Other, BrokenPipe, UnexpectedEof, ConnectionReset, TimedOut, ConnectionAborted, WriteZero, InvalidData, NotConnected];
+    std::io::Error::new(KINDS[K.fetch_add(1, Ordering::Relaxed) % KINDS.len()], "scripted producer failure")
 }
 fn parse_res5(r: &str) -> (usize, Vec<usize>, i64, u64, bool) {
     let mut n = 0;
